@@ -438,6 +438,96 @@ pub fn header_case(e: &Entry, decls: &[Decl], mn: &[&str], abs: bool, query: boo
     }
 }
 
+/// One compound message `u1;u2;...` of plain headers on a fresh instance: every unit must select
+/// what the header it spells selects once the compound-message path rule has been applied
+/// (relative to the previous header minus its last mnemonic, ':' and the start of the message
+/// = root, common commands leave the path alone).  The message ends at the first unit that
+/// is undefined by specification (what follows a fault is C06's matter).
+pub fn message_case(e: &Entry, decls: &[Decl], units: &[String], buf: &mut Vec<u8>, st: &mut CompiledStats, g: &mut Groups) {
+    let user = e.decls.len();
+    let texts: Vec<&str> = e.decls.to_vec();
+    buf.clear();
+    let mut prefix: Vec<String> = vec![];
+    let mut exp_calls: Vec<Vec<u8>> = vec![];
+    let mut exp_errs = 0usize;
+    let mut resolved: Vec<String> = vec![];
+    for (k, u) in units.iter().enumerate() {
+        if k > 0 {
+            buf.push(b';');
+        }
+        buf.extend_from_slice(u.as_bytes());
+        let (t, query) = match u.strip_suffix('?') {
+            Some(t) => (t, true),
+            None => (u.as_str(), false),
+        };
+        let (t, abs) = match t.strip_prefix(':') {
+            Some(t) => (t, true),
+            None => (t, false),
+        };
+        let mn: Vec<&str> = t.split(':').collect();
+        let common = mn[0].starts_with('*');
+        let full: Vec<String> = if common || abs {
+            mn.iter().map(|m| m.to_string()).collect()
+        } else {
+            prefix.iter().cloned().chain(mn.iter().map(|m| m.to_string())).collect()
+        };
+        let full_ref: Vec<&str> = full.iter().map(|m| m.as_str()).collect();
+        let sel = header::select(decls, &full_ref, query);
+        resolved.push(format!("{}{}", full.join(":"), if query { "?" } else { "" }));
+        match sel.len() {
+            1 => {
+                if sel[0] < user {
+                    exp_calls.push(sel[0].to_string().into_bytes());
+                }
+            }
+            0 => {
+                exp_errs = 1;
+                break;
+            }
+            _ => return, // ambiguous by specification: not a C01 case
+        }
+        if !common {
+            prefix = full[..full.len() - 1].to_vec();
+        }
+    }
+    buf.push(b'\n');
+    st.headers += 1;
+    (e.exec)(buf);
+    let (calls, errs) = log::with(|l| {
+        (
+            l.ev.iter().filter(|x| x.k == K::Enter).map(|x| l.data(x).to_vec()).collect::<Vec<_>>(),
+            l.ev.iter().filter(|x| x.k == K::Err).map(|x| l.data(x).to_vec()).collect::<Vec<_>>(),
+        )
+    });
+    if exp_errs == 0 {
+        st.selected += 1;
+    } else {
+        st.undefined += 1;
+    }
+    let ok = calls == exp_calls && errs.len() == exp_errs && errs.iter().all(|x| x == b"-113");
+    if !ok {
+        let kind = if calls != exp_calls { "a-unit-of-a-compound-message-selects-another-handler" } else { "a-unit-of-a-compound-message-is-not-reported-as-one-113" };
+        let f = vec![("property", "C01".to_string()), ("kind", kind.to_string()), ("std_cmds", e.std_cmds.to_string()), ("err_cmds", e.err_cmds.to_string())];
+        let b2 = buf.clone();
+        g.add("compiled-messages", &f, (texts.len() * 1000 + b2.len(), &b2), || {
+            (
+                json!({"interface": e.name, "decls": texts, "message": crate::util::hex(&b2)}),
+                format!(
+                    "interface {} {:?}: message \"{}\" (units resolve to {:?}): expected calls {:?} and {} error(s); observed calls {:?} errors {:?}",
+                    e.name,
+                    texts,
+                    show(&b2),
+                    resolved,
+                    exp_calls.iter().map(|c| show(c)).collect::<Vec<_>>(),
+                    exp_errs,
+                    calls.iter().map(|c| show(c)).collect::<Vec<_>>(),
+                    errs.iter().map(|c| show(c)).collect::<Vec<_>>()
+                ),
+            )
+        });
+    }
+}
+
 /// Checks one compiled interface: emitted trie vs specification, and every
 /// header over the near-miss pool end to end through `run`.
 pub fn check_compiled(e: &Entry, max_levels: usize, full_budget: u64, g: &mut Groups, st: &mut CompiledStats) {
@@ -465,6 +555,7 @@ pub fn check_compiled(e: &Entry, max_levels: usize, full_budget: u64, g: &mut Gr
     let depth = decls.iter().map(|d| d.parts.len()).max().unwrap_or(1);
     let levels = (depth + 1).min(max_levels);
     let mut buf: Vec<u8> = Vec::with_capacity(128);
+    let mut buf2: Vec<u8> = Vec::with_capacity(128);
     let mut one = |mn: &[&str], st: &mut CompiledStats, g: &mut Groups| {
         let len = mn.len();
         if len == 0 {
@@ -500,6 +591,31 @@ pub fn check_compiled(e: &Entry, max_levels: usize, full_budget: u64, g: &mut Gr
     // positions if affordable) by every pool mnemonic, insert a pool mnemonic at every position
     // (extra level), delete a level (missing level), swap neighbours (misplaced level)
     let mut seen_paths: BTreeSet<Vec<String>> = BTreeSet::new();
+    // material for the compound-message contexts: a few declared spellings as first units,
+    // the declared single-level headers, the declared common commands
+    let mut first_units: Vec<(String, bool)> = vec![];
+    let mut singles: Vec<(String, bool)> = vec![];
+    let mut commons: Vec<String> = vec![];
+    for d in &decls {
+        for path in reachable_paths(d) {
+            let text = format!("{}{}", path.join(":"), if d.query { "?" } else { "" });
+            if path[0].starts_with('*') {
+                if commons.len() < 2 {
+                    commons.push(text);
+                }
+            } else if path.len() == 1 {
+                if singles.len() < 3 && !singles.iter().any(|s| s.0 == text) {
+                    singles.push((text, d.query));
+                }
+            } else if first_units.len() < 3 && path.len() == d.parts.len() {
+                first_units.push((text, d.query));
+            }
+        }
+    }
+    if first_units.is_empty() {
+        first_units = singles.clone();
+    }
+    let mut context_budget: i64 = if full_budget == 0 { 0 } else { 20_000 };
     for d in &decls {
         for path in header::spelled_paths(d) {
             if !reachable(&path) || !seen_paths.insert(path.clone()) {
@@ -527,6 +643,41 @@ pub fn check_compiled(e: &Entry, max_levels: usize, full_budget: u64, g: &mut Gr
                     let mut v = base.clone();
                     v.insert(i, m);
                     one(&v, st, g);
+                }
+            }
+            // the same spelling reached through a compound message: behind every declared spelling
+            // (relative), behind that and an absolute single-level unit, behind that and a common
+            // command - every pool mnemonic as the last unit
+            if context_budget > 0 {
+                let firsts: Vec<(String, bool)> = first_units.clone();
+                for (h1, _) in &firsts {
+                    for q in [false, true] {
+                        let tail = |m: &str| format!("{m}{}", if q { "?" } else { "" });
+                        let last_full = format!("{}{}", base.join(":"), if q { "?" } else { "" });
+                        // the declared spelling itself, absolute, behind another unit
+                        if !base[0].starts_with('*') {
+                            message_case(e, &decls, &[h1.clone(), format!(":{last_full}")], &mut buf2, st, g);
+                        }
+                        // its last mnemonic relative to its own prefix: `P:x;y`
+                        if base.len() >= 2 && context_budget > 0 {
+                            for m in &pool {
+                                if m.starts_with('*') {
+                                    continue;
+                                }
+                                context_budget -= 1;
+                                message_case(e, &decls, &[last_full.clone(), tail(m)], &mut buf2, st, g);
+                                for (s1, _) in singles.iter() {
+                                    message_case(e, &decls, &[last_full.clone(), format!(":{s1}"), tail(m)], &mut buf2, st, g);
+                                }
+                                for c in commons.iter() {
+                                    message_case(e, &decls, &[last_full.clone(), c.clone(), tail(m)], &mut buf2, st, g);
+                                }
+                            }
+                        }
+                    }
+                    if base.len() < 2 {
+                        break;
+                    }
                 }
             }
             if (pool.len() * pool.len()) as u64 * 3 <= full_budget {
